@@ -12,6 +12,7 @@ fn shape_and_names(d: &reg::IDesc, cfg: &dyn DC, cs: &[Candle], r: &mut Report) 
 	let cfgv = cfg.ser().unwrap_or(Value::Null);
 	let case = |what: &str, step: usize| json!({"indicator": d.name, "config": cfgv, "what": what, "step": step});
 	let (nv, ns) = cfg.size();
+	r.case_named(d.name, &[11, reg::json_hash(&cfgv), reg::candles_hash(cs)]);
 	if cfg.name() != d.name || cfg.const_name() != d.name {
 		r.violate(&format!("C11|{}|name|config", d.name), "config.name() is not NAME", || case("name", 0));
 	}
@@ -138,6 +139,7 @@ fn setters(d: &reg::IDesc, ctx: &Ctx, r: &mut Report) {
 		}
 		for (text, want) in fresh_values(&kind, cur, &mut rng, per_field) {
 			r.eval(1);
+			r.case_named(d.name, &[111, crate::rng::hash_str(name), crate::rng::hash_str(&text)]);
 			let mut c = base.bclone();
 			let res = guard(|| c.set(name, text.clone()));
 			let case = || json!({"indicator": d.name, "field": name, "text": text, "expected_value": want});
